@@ -46,6 +46,7 @@ from pytato.array import (
     IndexRemappingBase,
     InputArgumentBase,
     NamedArray,
+    Reshape,
     ShapeType,
     Stack,
 )
@@ -201,7 +202,15 @@ class ListOfUsersCollector(Mapper[None, Never, []]):
 
     map_roll = _map_index_remapping_base
     map_axis_permutation = _map_index_remapping_base
-    map_reshape = _map_index_remapping_base
+
+    def map_reshape(self, expr: Reshape) -> None:
+        self.array_to_users[expr.array].append(expr)
+        self.rec(expr.array)
+
+        for dim in expr.newshape:
+            if isinstance(dim, Array):
+                self.array_to_users[dim].append(expr)
+                self.rec(dim)
 
     def _map_input_base(self, expr: InputArgumentBase) -> None:
         for dim in expr.shape:
@@ -433,7 +442,9 @@ class ListOfDirectPredecessorsGetter(
 
     map_roll = _map_index_remapping_base
     map_axis_permutation = _map_index_remapping_base
-    map_reshape = _map_index_remapping_base
+
+    def map_reshape(self, expr: Reshape) -> list[ArrayOrNames]:
+        return [*self._get_preds_from_shape(expr.newshape), expr.array]
 
     def _map_input_base(self, expr: InputArgumentBase) \
             -> list[ArrayOrNames]:
